@@ -93,6 +93,8 @@ type CompCase struct {
 	// fails the way it fails on a full disk). Whatever the calls return, the
 	// content must be preserved.
 	FaultLimit int64 `json:"fault_limit,omitempty"`
+	// Ratio > 0: cfg.CompactionRatio (size-ratio trigger between adjacent levels)
+	Ratio float64 `json:"ratio,omitempty"`
 }
 
 func valOf(e Ent) []byte {
@@ -189,6 +191,9 @@ func runComp(c *CompCase) (*failure, []string, bool) {
 	cfg.MaxMemTables = c.MaxMem
 	cfg.MaxLevelWithTombstones = c.MaxTombLv
 	cfg.CompactionInterval = 3600
+	if c.Ratio > 0 {
+		cfg.CompactionRatio = c.Ratio
+	}
 	if err := cfg.SaveManifest(db); err != nil {
 		panic(err)
 	}
@@ -318,13 +323,25 @@ func genComp(t *rapid.T) CompCase {
 		MaxTombLv: rapid.IntRange(0, 2).Draw(t, "maxtomblv"),
 		Rounds:    rapid.IntRange(1, 4).Draw(t, "rounds"),
 	}
+	// a third of the cases: level sizes that differ by factors (fat and thin
+	// files) and a low size ratio, with MaxMemTables above the number of level-0
+	// files, so that the SIZE-RATIO selection runs, not only the count trigger
+	sized := rapid.IntRange(0, 2).Draw(t, "sized") == 0
+	if sized {
+		c.Ratio = rapid.SampledFrom([]float64{1.5, 2, 4}).Draw(t, "ratio")
+		c.MaxMem = rapid.IntRange(3, 8).Draw(t, "maxmem_sized")
+	}
 	tag := uint32(1)
 	epoch := 0
+	fat := false
 	ent := func(k int) Ent {
 		if rapid.IntRange(0, 3).Draw(t, "tomb") == 0 {
 			return Ent{K: k, Tomb: true}
 		}
 		tag++
+		if fat {
+			return Ent{K: k, Tag: tag, Len: rapid.SampledFrom([]int{2000, 8000, 30000}).Draw(t, "fatlen")}
+		}
 		return Ent{K: k, Tag: tag, Len: rapid.SampledFrom([]int{0, 1, 5, 40, 300}).Draw(t, "len")}
 	}
 	// deeper levels first (oldest): each level is one epoch split into non-overlapping files
@@ -335,6 +352,7 @@ func genComp(t *rapid.T) CompCase {
 		per := (nk + nf - 1) / nf
 		for fi := 0; fi < nf; fi++ {
 			var ents []Ent
+			fat = sized && rapid.IntRange(0, 3).Draw(t, "fatfile") == 0
 			for k := fi * per; k < (fi+1)*per && k < nk; k++ {
 				if rapid.IntRange(0, 2).Draw(t, "present") != 0 {
 					ents = append(ents, ent(k))
@@ -348,8 +366,12 @@ func genComp(t *rapid.T) CompCase {
 	}
 	// level 0: overlapping files, one epoch each
 	n0 := rapid.IntRange(1, 6).Draw(t, "n0")
+	if sized {
+		n0 = rapid.IntRange(1, 3).Draw(t, "n0_sized")
+	}
 	for i := 0; i < n0; i++ {
 		var ents []Ent
+		fat = sized && rapid.Bool().Draw(t, "fatfile0")
 		for k := 0; k < nk; k++ {
 			if rapid.IntRange(0, 2).Draw(t, "present0") == 0 {
 				ents = append(ents, ent(k))
